@@ -86,7 +86,10 @@ def judge(sim, ev, rec):
     elif k in ("answer", "unsol"):
         judge_answer(sim, ev, rec)
     elif k == "aq_answer":
-        if rec.get("error") and not ev.get("tf"):
+        if not rec.get("error") and (rec.get("p") or {}).get("encrypt"):
+            # an attribute authority asked to encrypt: the same producer-side rules as for a login answer
+            judge_answer(sim, ev, rec)
+        elif rec.get("error") and not ev.get("tf"):
             if rec.get("refusal_expected"):
                 sim.count("probe.refused-required-attribute-missing")
             elif rec.get("benign_ok"):
@@ -506,7 +509,7 @@ def check_content(sim, rec, m, eff, out, asked, hits):
     ident = asked.get("identity")
     if ident is not None and asked.get("sp_view"):
         # the SP's metadata asks for particular attributes: only those are released to it
-        ident, asked_for, refuse = fed.expected_release(ident, asked["sp_view"])
+        ident, asked_for, refuse = fed.expected_release(ident, asked["sp_view"], asked.get("p", {}).get("entity_categories"))
         if refuse:
             # a required attribute is missing: the documented answer is an error response; this code base
             # answers "best effort" instead (Server.create_authn_response hard-codes it) and what is
